@@ -46,6 +46,35 @@ type NomResult<'a, T> = IResult<&'a [u8], T, NomError<&'a [u8]>>;
 
 const ATOM_CACHE_SIZE: usize = 256;
 
+// Terms nest through recursion in the parser; untrusted input must not be able to
+// exhaust the stack of the thread that decodes it.
+const MAX_NESTING_DEPTH: usize = 256;
+
+thread_local! {
+    static NESTING_DEPTH: std::cell::Cell<usize> = const { std::cell::Cell::new(0) };
+}
+
+struct NestingGuard;
+
+impl NestingGuard {
+    fn enter() -> Option<Self> {
+        NESTING_DEPTH.with(|depth| {
+            if depth.get() >= MAX_NESTING_DEPTH {
+                None
+            } else {
+                depth.set(depth.get() + 1);
+                Some(NestingGuard)
+            }
+        })
+    }
+}
+
+impl Drop for NestingGuard {
+    fn drop(&mut self) {
+        NESTING_DEPTH.with(|depth| depth.set(depth.get().saturating_sub(1)));
+    }
+}
+
 #[derive(Debug, Clone)]
 pub struct AtomCache {
     atoms: HashMap<u8, Atom>,
@@ -254,6 +283,9 @@ fn parse_term_from_tag<'a>(
     tag: u8,
     cache: &AtomCache,
 ) -> NomResult<'a, OwnedTerm> {
+    let Some(_nesting) = NestingGuard::enter() else {
+        return Err(nom::Err::Failure(NomError::new(input, ErrorKind::TooLarge)));
+    };
     match tag {
         SMALL_INTEGER_EXT => parse_small_integer(input),
         INTEGER_EXT => parse_integer(input),
@@ -931,6 +963,9 @@ fn parse_term_borrowed<'a>(
 ) -> NomResult<'a, BorrowedTerm<'a>> {
     ctx.byte_offset = original_len - input.len();
     let (input, tag) = be_u8(input)?;
+    let Some(_nesting) = NestingGuard::enter() else {
+        return Err(nom::Err::Failure(NomError::new(input, ErrorKind::TooLarge)));
+    };
 
     match tag {
         SMALL_INTEGER_EXT => parse_small_integer_borrowed(input),
